@@ -136,7 +136,7 @@ def write_family(seed, tier, ws):
     for a in [0, 7, -7, 12345, -12345, 32767, -32768]:
         for s in range(5, 13):
             items.append(runner.Item(('wint_tight', a, s), tight, [str(a)], w=2, s=s,
-                                     meta={'family': 'write_int_tight', 'classifier': {'fn': 'write_int'}, 'allow_exhausted': True}))
+                                     meta={'family': 'write_int_tight', 'classifier': {'fn': 'write_int'}, 'allow_exhausted': 'prefix'}))
     # bool / byte / strings / byte arrays of every length
     items.append(runner.Item(('wbool',), 'empty @is_you(int a) { write(a > 0); write(\' \'); writeln(a < 0); write(a == 0); bool[] b = [true, false]; writeln(b[0]); writeln(b[1]); }',
                              ['1'], s=60, meta={'family': 'write_bool'}))
